@@ -87,7 +87,8 @@ func (hs *HandshakeState) writeClientRequestHidden(b []byte, serverPublicKey *ke
 	logrus.Debugf("client: ss: %x", dhSs)
 	hs.duplex.Absorb(dhSs)
 
-	now := verifhook.Int64("transport.hidden-request.timestamp", time.Now().Unix())
+	now := time.Now().Unix()
+	now = verifhook.Int64("transport.hidden-request.timestamp", now)
 	timeBytes := make([]byte, 8)
 	binary.BigEndian.PutUint64(timeBytes, uint64(now))
 	hs.duplex.Encrypt(b, timeBytes[:])
